@@ -15,6 +15,10 @@ static buf_t ch[MAXC];
 #define UNSET ((size_t)0xdeadbeefdeadbeefULL)
 
 static void freeb(buf_t *b) { free(b->p); }
+/* in-place classes (op name ends in '!'): the input is copied into the output buffer and the library is
+ * called with in == out; the result must equal the out-of-place result (= the model) */
+static int inplace;
+static const uint8_t *INP(buf_t src, uint8_t *out) { if (!inplace) return src.p; if (src.n) memcpy(out, src.p, src.n); return out; }
 static uint8_t *dup_exact(const uint8_t *p, size_t n) { uint8_t *q = malloc(n ? n : 1); if (n) memcpy(q, p, n); return q; }
 
 /* gf128mul a b */
@@ -40,8 +44,8 @@ static void do_gcmenc(char **w) {
 	buf_t key = hex2buf(w[2]), iv = hex2buf(w[3]), aad = hex2buf(w[4]), pt = hex2buf(w[5]);
 	size_t taglen = (size_t)atol(w[6]); int r = -1;
 	uint8_t *out = malloc(pt.n ? pt.n : 1), *tag = malloc(taglen && taglen <= 64 ? taglen : 1);
-	if (!strcmp(w[1], "sm4")) { SM4_KEY k; if (set_sm4(&k, key)) r = sm4_gcm_encrypt(&k, iv.p, iv.n, aad.p, aad.n, pt.p, pt.n, out, taglen, tag); }
-	else { AES_KEY k; if (aes_set_encrypt_key(&k, key.p, key.n) == 1) r = aes_gcm_encrypt(&k, iv.p, iv.n, aad.p, aad.n, pt.p, pt.n, out, taglen, tag); }
+	if (!strcmp(w[1], "sm4")) { SM4_KEY k; if (set_sm4(&k, key)) r = sm4_gcm_encrypt(&k, iv.p, iv.n, aad.p, aad.n, INP(pt, out), pt.n, out, taglen, tag); }
+	else { AES_KEY k; if (aes_set_encrypt_key(&k, key.p, key.n) == 1) r = aes_gcm_encrypt(&k, iv.p, iv.n, aad.p, aad.n, INP(pt, out), pt.n, out, taglen, tag); }
 	if (r == 1) { puthex(out, pt.n); putchar(' '); puthex(tag, taglen); } else printf("ERR");
 	free(out); free(tag); freeb(&key); freeb(&iv); freeb(&aad); freeb(&pt);
 }
@@ -49,8 +53,8 @@ static void do_gcmenc(char **w) {
 static void do_gcmdec(char **w) {
 	buf_t key = hex2buf(w[2]), iv = hex2buf(w[3]), aad = hex2buf(w[4]), ct = hex2buf(w[5]), tag = hex2buf(w[6]);
 	int r = -1; uint8_t *out = malloc(ct.n ? ct.n : 1);
-	if (!strcmp(w[1], "sm4")) { SM4_KEY k; if (set_sm4(&k, key)) r = sm4_gcm_decrypt(&k, iv.p, iv.n, aad.p, aad.n, ct.p, ct.n, tag.p, tag.n, out); }
-	else { AES_KEY k; if (aes_set_encrypt_key(&k, key.p, key.n) == 1) r = aes_gcm_decrypt(&k, iv.p, iv.n, aad.p, aad.n, ct.p, ct.n, tag.p, tag.n, out); }
+	if (!strcmp(w[1], "sm4")) { SM4_KEY k; if (set_sm4(&k, key)) r = sm4_gcm_decrypt(&k, iv.p, iv.n, aad.p, aad.n, INP(ct, out), ct.n, tag.p, tag.n, out); }
+	else { AES_KEY k; if (aes_set_encrypt_key(&k, key.p, key.n) == 1) r = aes_gcm_decrypt(&k, iv.p, iv.n, aad.p, aad.n, INP(ct, out), ct.n, tag.p, tag.n, out); }
 	if (r == 1) puthex(out, ct.n); else printf("ERR");
 	free(out); freeb(&key); freeb(&iv); freeb(&aad); freeb(&ct); freeb(&tag);
 }
@@ -59,10 +63,10 @@ static void do_gcmrt(char **w) {
 	buf_t key = hex2buf(w[2]), iv = hex2buf(w[3]), aad = hex2buf(w[4]), pt = hex2buf(w[5]);
 	size_t taglen = (size_t)atol(w[6]); int r = -1, r2 = -1;
 	uint8_t *out = malloc(pt.n ? pt.n : 1), *tag = malloc(taglen ? taglen : 1), *back = malloc(pt.n ? pt.n : 1);
-	if (!strcmp(w[1], "sm4")) { SM4_KEY k; if (set_sm4(&k, key)) { r = sm4_gcm_encrypt(&k, iv.p, iv.n, aad.p, aad.n, pt.p, pt.n, out, taglen, tag);
-		if (r == 1) r2 = sm4_gcm_decrypt(&k, iv.p, iv.n, aad.p, aad.n, out, pt.n, tag, taglen, back); } }
-	else { AES_KEY k; if (aes_set_encrypt_key(&k, key.p, key.n) == 1) { r = aes_gcm_encrypt(&k, iv.p, iv.n, aad.p, aad.n, pt.p, pt.n, out, taglen, tag);
-		if (r == 1) r2 = aes_gcm_decrypt(&k, iv.p, iv.n, aad.p, aad.n, out, pt.n, tag, taglen, back); } }
+	if (!strcmp(w[1], "sm4")) { SM4_KEY k; if (set_sm4(&k, key)) { r = sm4_gcm_encrypt(&k, iv.p, iv.n, aad.p, aad.n, INP(pt, out), pt.n, out, taglen, tag);
+		if (r == 1) { if (inplace && pt.n) memcpy(back, out, pt.n); r2 = sm4_gcm_decrypt(&k, iv.p, iv.n, aad.p, aad.n, inplace ? back : out, pt.n, tag, taglen, back); } } }
+	else { AES_KEY k; if (aes_set_encrypt_key(&k, key.p, key.n) == 1) { r = aes_gcm_encrypt(&k, iv.p, iv.n, aad.p, aad.n, INP(pt, out), pt.n, out, taglen, tag);
+		if (r == 1) { if (inplace && pt.n) memcpy(back, out, pt.n); r2 = aes_gcm_decrypt(&k, iv.p, iv.n, aad.p, aad.n, inplace ? back : out, pt.n, tag, taglen, back); } } }
 	if (r != 1) printf("ERR");
 	else { puthex(out, pt.n); putchar(' '); puthex(tag, taglen); printf(" %s", (r2 == 1 && memcmp(back, pt.p, pt.n) == 0) ? "RT" : "RTFAIL"); }
 	free(out); free(tag); free(back); freeb(&key); freeb(&iv); freeb(&aad); freeb(&pt);
@@ -74,8 +78,8 @@ typedef int (*upd_fn)(SM4_GCM_CTX *, const uint8_t *, size_t, uint8_t *, size_t 
 static int gcm_stream_update(upd_fn f, SM4_GCM_CTX *ctx, buf_t in, int *over, int strict) {
 	size_t rep = UNSET, outlen = UNSET; uint8_t *out; int r;
 	if (f(ctx, in.p, in.n, NULL, &rep) != 1) return -1;
-	out = malloc(rep ? rep : 1);
-	r = f(ctx, in.p, in.n, out, &outlen);
+	out = malloc(rep ? rep : 1);      /* rep >= inlen: also large enough to hold the input in the in-place class */
+	r = f(ctx, INP(in, out), in.n, out, &outlen);
 	if (r == 1) {
 		if (outlen == UNSET) { if (strict) printf("OUTLEN-UNSET"); else putchar('-'); }
 		else { if (outlen > rep) *over = 1; puthex(out, outlen > rep ? rep : outlen); }
@@ -111,9 +115,9 @@ static void do_ccm(char **w, int rt) {
 	size_t taglen = (size_t)atol(w[5]); int r = -1, r2 = -1; SM4_KEY k;
 	uint8_t *out = malloc(pt.n ? pt.n : 1), *tag = malloc(taglen && taglen <= 64 ? taglen : 1), *back = malloc(pt.n ? pt.n : 1);
 	if (set_sm4(&k, key)) {
-		r = sm4_ccm_encrypt(&k, iv.p, iv.n, aad.n ? aad.p : NULL, aad.n, pt.p, pt.n, out, taglen, tag);
+		r = sm4_ccm_encrypt(&k, iv.p, iv.n, aad.n ? aad.p : NULL, aad.n, INP(pt, out), pt.n, out, taglen, tag);
 		if (r == 1) { puthex(out, pt.n); putchar(' '); puthex(tag, taglen); fflush(stdout); }
-		if (r == 1 && rt) r2 = sm4_ccm_decrypt(&k, iv.p, iv.n, aad.n ? aad.p : NULL, aad.n, out, pt.n, tag, taglen, back);
+		if (r == 1 && rt) { if (inplace && pt.n) memcpy(back, out, pt.n); r2 = sm4_ccm_decrypt(&k, iv.p, iv.n, aad.n ? aad.p : NULL, aad.n, inplace ? back : out, pt.n, tag, taglen, back); }
 	}
 	if (r != 1) printf("ERR");
 	else if (rt) printf(" %s", (r2 == 1 && memcmp(back, pt.p, pt.n) == 0) ? "RT" : "RTFAIL");
@@ -123,7 +127,7 @@ static void do_ccm(char **w, int rt) {
 static void do_ccmdec(char **w) {
 	buf_t key = hex2buf(w[1]), iv = hex2buf(w[2]), aad = hex2buf(w[3]), ct = hex2buf(w[4]), tag = hex2buf(w[5]);
 	int r = -1; SM4_KEY k; uint8_t *out = malloc(ct.n ? ct.n : 1);
-	if (set_sm4(&k, key)) r = sm4_ccm_decrypt(&k, iv.p, iv.n, aad.n ? aad.p : NULL, aad.n, ct.p, ct.n, tag.p, tag.n, out);
+	if (set_sm4(&k, key)) r = sm4_ccm_decrypt(&k, iv.p, iv.n, aad.n ? aad.p : NULL, aad.n, INP(ct, out), ct.n, tag.p, tag.n, out);
 	if (r == 1) puthex(out, ct.n); else printf("ERR");
 	free(out); freeb(&key); freeb(&iv); freeb(&aad); freeb(&ct); freeb(&tag);
 }
@@ -139,7 +143,7 @@ static void do_sm4enc(char **w) {
 static void do_aes(char **w, int dec) {
 	buf_t key = hex2buf(w[1]), blk = hex2buf(w[2]); AES_KEY k; uint8_t *o = malloc(16);
 	if (blk.n != 16 || (dec ? aes_set_decrypt_key : aes_set_encrypt_key)(&k, key.p, key.n) != 1) printf("ERR");
-	else { (dec ? aes_decrypt : aes_encrypt)(&k, blk.p, o); puthex(o, 16); }
+	else { (dec ? aes_decrypt : aes_encrypt)(&k, INP(blk, o), o); puthex(o, 16); }
 	free(o); freeb(&key); freeb(&blk);
 }
 /* aescbcenc key iv pt | aescbcdec key iv ct | aesctr key ctr data */
@@ -148,13 +152,13 @@ static void do_aesmode(char **w, int which) {
 	uint8_t *o = malloc(d.n + 16);
 	if (iv.n != 16) { printf("ERR"); goto end; }
 	if (which == 0) { if (aes_set_encrypt_key(&k, key.p, key.n) != 1) { printf("ERR"); goto end; }
-		r = aes_cbc_padding_encrypt(&k, iv.p, d.p, d.n, o, &outlen); }
+		r = aes_cbc_padding_encrypt(&k, iv.p, INP(d, o), d.n, o, &outlen); }
 	else if (which == 1) { if (aes_set_decrypt_key(&k, key.p, key.n) != 1) { printf("ERR"); goto end; }
 		free(o); o = malloc(d.n ? d.n : 1);
 		r = aes_cbc_padding_decrypt(&k, iv.p, d.p, d.n, o, &outlen); }
 	else { if (aes_set_encrypt_key(&k, key.p, key.n) != 1) { printf("ERR"); goto end; }
 		uint8_t *c = dup_exact(iv.p, 16); free(o); o = malloc(d.n ? d.n : 1);
-		aes_ctr_encrypt(&k, c, d.p, d.n, o); outlen = d.n; r = 1; free(c); }
+		aes_ctr_encrypt(&k, c, INP(d, o), d.n, o); outlen = d.n; r = 1; free(c); }
 	if (r == 1) puthex(o, outlen); else printf("ERR");
 end:
 	free(o); freeb(&key); freeb(&iv); freeb(&d);
@@ -170,14 +174,14 @@ static void do_zucks(char **w, int z256) {
 /* zucenc key iv data  (one-shot zuc_encrypt on an exactly sized input) */
 static void do_zucenc(char **w) {
 	buf_t key = hex2buf(w[1]), iv = hex2buf(w[2]), d = hex2buf(w[3]); ZUC_STATE st; uint8_t *o = malloc(d.n ? d.n : 1);
-	zuc_init(&st, key.p, iv.p); zuc_encrypt(&st, d.p, d.n, o); puthex(o, d.n); free(o); freeb(&key); freeb(&iv); freeb(&d);
+	zuc_init(&st, key.p, iv.p); zuc_encrypt(&st, INP(d, o), d.n, o); puthex(o, d.n); free(o); freeb(&key); freeb(&iv); freeb(&d);
 }
 /* zucencs key iv chunks -> o1,o2,..|final */
 static void do_zucencs(char **w) {
 	buf_t key = hex2buf(w[1]), iv = hex2buf(w[2]); size_t k = split_chunks(w[3], ch, MAXC), i; ZUC_CTX *ctx = malloc(sizeof(ZUC_CTX));
 	if (zuc_encrypt_init(ctx, key.p, iv.p) != 1) { printf("ERR"); goto end; }
 	for (i = 0; i < k; i++) { size_t ol = UNSET; uint8_t *o = malloc(ch[i].n + 4);
-		if (zuc_encrypt_update(ctx, ch[i].p, ch[i].n, o, &ol) != 1) { printf("ERR"); free(o); goto end; }
+		if (zuc_encrypt_update(ctx, INP(ch[i], o), ch[i].n, o, &ol) != 1) { printf("ERR"); free(o); goto end; }
 		puthex(o, ol); putchar(' '); free(o); }
 	{ size_t ol = UNSET; uint8_t *o = malloc(4); if (zuc_encrypt_finish(ctx, o, &ol) != 1) printf("| ERR"); else { printf("| "); puthex(o, ol); } free(o); }
 end:
@@ -188,7 +192,7 @@ static void do_zuceea(char **w) {
 	buf_t key = hex2buf(w[1]), d = hex2buf(w[6]); uint32_t count = (uint32_t)strtoul(w[2], NULL, 10), bearer = (uint32_t)atol(w[3]), dir = (uint32_t)atol(w[4]);
 	size_t nbits = (size_t)atol(w[5]), nw = (nbits + 31) / 32, i; uint32_t *in = malloc(nw ? 4 * nw : 1), *out = malloc(nw ? 4 * nw : 1);
 	for (i = 0; i < nw; i++) in[i] = ((uint32_t)d.p[4*i] << 24) | ((uint32_t)d.p[4*i+1] << 16) | ((uint32_t)d.p[4*i+2] << 8) | d.p[4*i+3];
-	zuc_eea_encrypt(in, out, nbits, key.p, count, bearer, dir); putwords(out, nw);
+	zuc_eea_encrypt(in, inplace ? in : out, nbits, key.p, count, bearer, dir); putwords(inplace ? in : out, nw);
 	free(in); free(out); freeb(&key); freeb(&d);
 }
 /* zuceia key count bearer dir nbits data(bytes, ceil(nbits/8) of them) */
@@ -230,8 +234,8 @@ static void do_hm(char **w, int dec, int strict) {
 	if (r != 1) { printf("ERR"); goto end; }
 	for (i = 0; i < k; i++) {
 		size_t ol = UNSET; uint8_t *o = malloc(ch[i].n + 32);
-		if (cbc) r = (dec ? sm4_cbc_sm3_hmac_decrypt_update : sm4_cbc_sm3_hmac_encrypt_update)(c1, ch[i].p, ch[i].n, o, &ol);
-		else r = (dec ? sm4_ctr_sm3_hmac_decrypt_update : sm4_ctr_sm3_hmac_encrypt_update)(c2, ch[i].p, ch[i].n, o, &ol);
+		if (cbc) r = (dec ? sm4_cbc_sm3_hmac_decrypt_update : sm4_cbc_sm3_hmac_encrypt_update)(c1, INP(ch[i], o), ch[i].n, o, &ol);
+		else r = (dec ? sm4_ctr_sm3_hmac_decrypt_update : sm4_ctr_sm3_hmac_encrypt_update)(c2, INP(ch[i], o), ch[i].n, o, &ol);
 		if (r != 1) { printf("ERR"); free(o); goto end; }
 		if (ol == UNSET) { unset = 1; ol = 0; }
 		memcpy(acc + tot, o, ol); tot += ol; free(o);
@@ -248,7 +252,8 @@ end:
 }
 
 static void handle(size_t nw, char **w) {
-	const char *op = w[0];
+	char *op = w[0]; size_t ol = strlen(op);
+	inplace = 0; if (ol && op[ol - 1] == '!') { inplace = 1; op[ol - 1] = 0; }
 	if (!strcmp(op, "gf128mul") && nw == 3) do_gf128mul(w);
 	else if (!strcmp(op, "ghash") && nw == 4) do_ghash(w, 0);
 	else if (!strcmp(op, "ghashs") && nw == 4) do_ghash(w, 1);
